@@ -121,7 +121,10 @@ func mistypedEmptyMap(v cty.Value, want cty.Type) bool {
 // element into cty.DynamicVal, so one error can account for several such places (seed 2, n=6000:
 // blockset(b1)[blockset(b1)[attr(a1:dynamic)]] gives SetVal{DynamicVal, DynamicVal, DynamicVal}).
 func dynamicForCollection(v cty.Value, want cty.Type) bool {
-	return v.Type() == cty.DynamicPseudoType && !v.IsKnown() && (want.IsListType() || want.IsSetType())
+	// (the finding needs block values of DIFFERENT types, which only a nested implied type with a
+	// dynamic part allows; with a fully static element type the same symptom is a new defect)
+	return v.Type() == cty.DynamicPseudoType && !v.IsKnown() && (want.IsListType() || want.IsSetType()) &&
+		want.ElementType().HasDynamicTypes()
 }
 
 // emptyMapTypeDiff: a and b differ, and EVERY place where they differ holds, in a, a mistyped empty map
@@ -254,12 +257,28 @@ func explainedByDynamic(v cty.Value, want cty.Type) bool {
 func explainedByBoth(v cty.Value, want cty.Type) bool {
 	n, m := 0, 0
 	return explainedBy(v, want, func(x cty.Value, w cty.Type) bool {
-		if dynamicForCollection(x, w) {
+		// (a DynamicVal for a list/set of a STATIC element type counts here only together with
+		// listAtEmptyMapSite: the block values differ because of mistyped empty maps)
+		if x.Type() == cty.DynamicPseudoType && !x.IsKnown() && (w.IsListType() || w.IsSetType()) {
 			m++
 			return true
 		}
 		return mistypedEmptyMap(x, w)
 	}, &n) && m > 0
+}
+
+// listAtEmptyMapSite: some BlockListSpec / BlockSetSpec site of the body has blocks whose separately
+// decoded values differ from the implied type by mistyped empty maps only (so their types cannot be
+// unified and the list comes back as DynamicVal: the second pinned shape caused by the first).
+func listAtEmptyMapSite(spec hcldec.Spec, body hcl.Body, ctx *hcl.EvalContext) bool {
+	var sites []emSite
+	emptyMapSites(spec, body, ctx, &sites, 8)
+	for _, st := range sites {
+		if !st.isMap {
+			return true
+		}
+	}
+	return false
 }
 
 func countSummary(d hcl.Diagnostics, prefix string) int {
@@ -815,7 +834,7 @@ func runJob(j job, ctx *hcl.EvalContext, rep *hv.Report, cf *hv.CaseFile) {
 					kind = "blocklist-dynamic-ununifiable"
 				case kinds["blockmap(multi-label)"] && explainedByEmptyMap(o.o.val, ity):
 					kind = "blockmap-multilabel-empty-type"
-				case nUn > 0 && kinds["blockmap(multi-label)"] && explainedByBoth(o.o.val, ity):
+				case nUn > 0 && kinds["blockmap(multi-label)"] && explainedByBoth(o.o.val, ity) && listAtEmptyMapSite(spec, body, ctx):
 					kind = "blocklist-dynamic-ununifiable" // both pinned shapes in one value
 				}
 				fail(kind, fmt.Sprintf("%s returned %#v; implied type %#v: %v", o.name, o.o.val.Type(), ity, errs[0]))
